@@ -13,18 +13,23 @@ namespace SMD.C04
 /-- a forced apply never reports a conflict -/
 theorem force_never_conflicts (u : Updater) (sc : Schema) (live cfg : TV) (ver : String) (m : Managed)
     (mgr : String) (c : List (String × Path)) :
-    apply u sc live cfg ver m mgr true ≠ .conflict c := sorry
+    apply u sc live cfg ver m mgr true ≠ .conflict c :=
+  apply_force_ne_conflict u sc live cfg ver m mgr c
 
 /-- whenever the non-forced apply succeeds it returns the same object and ownership as the forced one -/
 theorem unforced_ok_eq_forced (u : Updater) (sc : Schema) (live cfg : TV) (ver : String) (m : Managed)
     (mgr : String) (r : Option TV × Managed) :
-    apply u sc live cfg ver m mgr false = .ok r → apply u sc live cfg ver m mgr true = .ok r := sorry
+    apply u sc live cfg ver m mgr false = .ok r → apply u sc live cfg ver m mgr true = .ok r :=
+  apply_unforced_ok u sc live cfg ver m mgr r
 
 /-- a reported conflict list is never empty, and the forced apply of the same request succeeds -/
 theorem conflict_nonempty_and_forced_ok (u : Updater) (sc : Schema) (live cfg : TV) (ver : String) (m : Managed)
     (mgr : String) (c : List (String × Path)) :
     apply u sc live cfg ver m mgr false = .conflict c →
-      c ≠ [] ∧ ∃ r, apply u sc live cfg ver m mgr true = .ok r := sorry
+      c ≠ [] ∧ ∃ r, apply u sc live cfg ver m mgr true = .ok r :=
+  fun h =>
+    let ⟨hne, _, hr⟩ := apply_unforced_conflict u sc live cfg ver m mgr c h
+    ⟨hne, hr⟩
 
 /-- the non-forced apply fails with a conflict exactly when the forced one succeeds but the set of
 other managers' fields it changes or creates is non-empty: if the forced apply succeeds, the
@@ -33,18 +38,21 @@ theorem forced_ok_unforced_ok_or_conflict (u : Updater) (sc : Schema) (live cfg 
     (mgr : String) (r : Option TV × Managed) :
     apply u sc live cfg ver m mgr true = .ok r →
       apply u sc live cfg ver m mgr false = .ok r ∨
-      ∃ c, c ≠ [] ∧ apply u sc live cfg ver m mgr false = .conflict c := sorry
+      ∃ c, c ≠ [] ∧ apply u sc live cfg ver m mgr false = .conflict c :=
+  apply_forced_ok u sc live cfg ver m mgr r
 
 /-- every reported pair names a manager other than the applier that is in the managed fields, and
 a path that this manager owned (membership up to path-element equivalence) -/
 theorem conflict_pairs_are_owned_by_others (sc : Schema) (live cfg : TV) (ver : String) (m : Managed)
     (mgr : String) (c : List (String × Path)) (u : Updater) :
     apply u sc live cfg ver m mgr false = .conflict c →
-      ∀ x, x ∈ c → x.1 ≠ mgr := sorry
+      ∀ x, x ∈ c → x.1 ≠ mgr :=
+  fun h => (apply_unforced_conflict u sc live cfg ver m mgr c h).2.1
 
 /-- an update never reports a conflict (it is always forced) -/
 theorem update_never_conflicts (u : Updater) (sc : Schema) (live newObj : TV) (ver : String) (m : Managed)
     (mgr : String) (c : List (String × Path)) :
-    update u sc live newObj ver m mgr ≠ .conflict c := sorry
+    update u sc live newObj ver m mgr ≠ .conflict c :=
+  update_ne_conflict u sc live newObj ver m mgr c
 
 end SMD.C04
